@@ -10,6 +10,8 @@
 import GoldilocksVerif.Lemmas.NttObj
 import GoldilocksVerif.Lemmas.BridgeNttExtend
 import GoldilocksVerif.Lemmas.BridgeNttHist
+import GoldilocksVerif.Lemmas.BridgeNttHistBuf
+import GoldilocksVerif.Lemmas.BridgeNttDtor
 
 namespace GoldilocksVerif.C19
 open GoldilocksVerif.Model.Ntt
@@ -205,5 +207,156 @@ theorem C19_generated_transform_after_history (m e : Nat) (o0 : Obj) (hobj : mkO
   exact this
 
 end generated_history
+
+/-! ### HISTORIES with caller scratch buffers and `dst == NULL`, and histories that END WITH THE DESTRUCTOR
+  (Lemmas/BridgeNttHistBuf.lean, Lemmas/BridgeNttDtor.lean)
+  `GCallB` is the second history type: the destination of `NTT` / `INTT` is an `Option Nat` (`none`: the caller passes `dst == NULL`,
+  the transform is in place), every call has an optional caller scratch buffer (`none`: `buffer == NULL`).  `GCall.toB` embeds the
+  first type; the invariant is the same `GInv`.  `GCallB.ok`: as `GCall.ok`, plus (`BufArg`) the buffer is one of the caller's
+  blocks, another one than the destination's and the source's, of at least size·ncols (N_ext·ncols for `extendPol`) words.
+  The hand model has no caller buffer: `GCallB.toCall` forgets it.
+  `HeapSafe.Owned self b`: b is not the NULL block and is the block of `roots` / `powTwoInv` (when `s != 0`) or of `r` / `r_` (when
+  not NULL) — the pointers the destructor releases. -/
+section generated_history_buffers
+open GoldilocksVerif.BridgeNtt Gen.NttGen GoldilocksVerif.NttSpec Finset
+
+/-- **one call after ANY history, caller buffer and `dst == NULL` included**: the translated call returns; its destination block
+    holds EXACTLY (bit for bit) what the hand model returns for the same arguments on the FRESHLY constructed object `o0` —
+    whatever the scratch buffer held; the caller's blocks other than the destination and the scratch buffer are unchanged; the
+    invariant holds again (the scratch buffer keeps its size) -/
+theorem C19_generated_call_after_history_buffers (m e : Nat) (o0 : Obj) (hobj : mkObj m e = some o0) (he : e ≤ 1)
+    (fuel : Nat) (hf : 64 ≤ fuel) (n0 : Nat) (U : Nat → Prop) (sz : Nat → Nat)
+    (st : Heap × NTT_Goldilocks) (hinv : GInv o0 n0 U sz st) (c : GCallB) (hok : c.ok m fuel U sz) :
+    ∃ st' out src, c.run fuel st = some st' ∧ ((c.toCall st.1).run o0).2 = .ok (out, src) ∧ st'.1.block c.dst = out ∧
+      (∀ b, U b → b ≠ c.dst → c.buf ≠ some b → st'.1.block b = st.1.block b) ∧ GInv o0 n0 U sz st' :=
+  gcallB_step m e o0 hobj he fuel hf n0 U sz st hinv c hok
+
+/-- **C19 on the generated model, histories with caller buffers and in-place (`dst == NULL`) calls**: every history of valid calls
+    returns and ends in a state satisfying the invariant — so (`C19_generated_call_after_history_buffers`) the k-th call of every
+    history delivers what the fresh object delivers -/
+theorem C19_generated_history_buffers (m e : Nat) (o0 : Obj) (hobj : mkObj m e = some o0) (he : e ≤ 1)
+    (fuel : Nat) (hf : 64 ≤ fuel) (n0 : Nat) (U : Nat → Prop) (sz : Nat → Nat) (cs : List GCallB)
+    (st : Heap × NTT_Goldilocks) (hinv : GInv o0 n0 U sz st) (hok : ∀ c, c ∈ cs → c.ok m fuel U sz) :
+    ∃ st', runGB fuel st cs = some st' ∧ GInv o0 n0 U sz st' :=
+  runGB_inv m e o0 hobj he fuel hf n0 U sz cs st hinv hok
+
+/-- the second history type contains the first: same runs, valid calls stay valid -/
+theorem C19_generated_history_buffers_extends (m fuel : Nat) (U : Nat → Prop) (sz : Nat → Nat) (cs : List GCall)
+    (st : Heap × NTT_Goldilocks) :
+    runGB fuel st (cs.map GCall.toB) = runG fuel st cs ∧
+    ((∀ c, c ∈ cs → c.ok m fuel U sz) → ∀ c, c ∈ cs.map GCall.toB → c.ok m fuel U sz) := by
+  refine ⟨runG_toB fuel cs st, fun h c hc => ?_⟩
+  rw [List.mem_map] at hc
+  obtain ⟨c0, hc0, rfl⟩ := hc
+  exact GCall.toB_ok m fuel U sz c0 (h c0 hc0)
+
+/-- **the property after any history, in place with a caller buffer**: after ANY history of valid calls (with or without buffers), a
+    translated forward transform called with `dst == NULL` and a caller scratch buffer of ANY content delivers, in its source
+    block, the DFT of every column of what that block held -/
+theorem C19_generated_transform_after_history_buffers (m e : Nat) (o0 : Obj) (hobj : mkObj m e = some o0) (he : e ≤ 1)
+    (fuel : Nat) (hf : 64 ≤ fuel) (n0 : Nat) (U : Nat → Prop) (sz : Nat → Nat) (cs : List GCallB)
+    (st0 : Heap × NTT_Goldilocks) (hinv : GInv o0 n0 U sz st0) (hcs : ∀ c, c ∈ cs → c.ok m fuel U sz)
+    (Sx d nc B : Nat) (nphase nblock : BitVec 64) (hok : (GCallB.ntt none Sx d nc (some B) nphase nblock).ok m fuel U sz) :
+    ∃ st st', runGB fuel st0 cs = some st ∧ (GCallB.ntt none Sx d nc (some B) nphase nblock).run fuel st = some st' ∧
+      ∀ k c, k < 2 ^ d → c < nc →
+        den ((st'.1.block Sx).getD (k * nc + c) 0#64)
+          = ∑ j ∈ range (2 ^ d), den ((st.1.block Sx).getD (j * nc + c) 0#64) * omega d ^ (j * k) := by
+  obtain ⟨st, hr, hinv'⟩ := runGB_inv m e o0 hobj he fuel hf n0 U sz cs st0 hinv hcs
+  obtain ⟨st', out, src, h1, h2, h3, _, _⟩ := gcallB_step m e o0 hobj he fuel hf n0 U sz st hinv' _ hok
+  obtain ⟨uD, uS, hd30, hdm, hnc, hbound, hszD, hf1, _⟩ := hok
+  obtain ⟨_, _, _, zS⟩ := hinv'.user Sx uS
+  have hm : m ≠ 0 := by have := Nat.two_pow_pos d; omega
+  have hO := mkObj_ok m e o0 hm he hobj
+  have hdl : d ≤ log2 m := (Nat.le_log2 hm).mpr hdm
+  have hszS : 2 ^ d * nc ≤ sz Sx := hszD
+  obtain ⟨out', eo, _, hdft⟩ := ntt_forward o0 _ hO DstMode.null (st.1.block Sx) (st.1.block Sx) d nc nphase.toNat nblock.toNat hdl hnc
+    (by rw [if_neg (by decide)]; omega)
+  have h2' : ntt o0 DstMode.null (st.1.block Sx) (st.1.block Sx) (2 ^ d) nc nphase.toNat nblock.toNat false false = .ok (out, src) := h2
+  rw [eo] at h2'
+  injection h2' with h2'
+  injection h2' with h2' _
+  have h3' : st'.1.block Sx = out := h3
+  refine ⟨st, st', hr, h1, ?_⟩
+  intro k c hk hc
+  rw [h3', ← h2']
+  exact hdft k c hk hc
+
+/-- the caller may ALLOCATE new buffers between two calls (a block with any content, as the driver of the generated model does for
+    the data of every call): the invariant holds again, re-based to the larger heap, the new block being one more caller block —
+    so `C19_generated_call_after_history_buffers` / `C19_generated_history_buffers` apply to the calls that follow -/
+theorem C19_generated_caller_alloc_keeps_invariant (o0 : Obj) (n0 : Nat) (U : Nat → Prop) (sz : Nat → Nat) (hp : Heap)
+    (self : NTT_Goldilocks) (hinv : GInv o0 n0 U sz (hp, self)) (a : Block) :
+    GInv o0 (hp.size + 1) (fun c => U c ∨ c = hp.size) (fun c => if c = hp.size then a.size else sz c)
+      ((hp.allocWith a).1, self) :=
+  hinv.callerAlloc a
+
+/-- **the destructor, standalone**: the translated destructor releases every block the object owns (extent 0 afterwards) and leaves
+    the content of every other block -/
+theorem C19_generated_destructor (hp : Heap) (hpos : 0 < hp.size) (self : NTT_Goldilocks) :
+    (∀ b, HeapSafe.Owned self b → (NTT_dtor hp self).ext b = 0) ∧
+    (∀ b, ¬ HeapSafe.Owned self b → (NTT_dtor hp self).block b = hp.block b) :=
+  ⟨fun b hb => dtor_ext_owned hp hpos self b hb, fun b hb => dtor_block_unowned hp self b hb⟩
+
+/-- **a history that ENDS with the destructor**: from any state satisfying the invariant, any history of valid calls (buffers,
+    `dst == NULL`) returns — each call with the fresh-object result in its destination block — and the translated destructor then
+    releases every block the object owns, leaves the content of every block it does not own, in particular every caller block
+    keeps what the history gave it (and its size) -/
+theorem C19_generated_history_then_dtor (m e : Nat) (o0 : Obj) (hobj : mkObj m e = some o0) (he : e ≤ 1)
+    (fuel : Nat) (hf : 64 ≤ fuel) (n0 : Nat) (U : Nat → Prop) (sz : Nat → Nat) (cs : List GCallB)
+    (st : Heap × NTT_Goldilocks) (hinv : GInv o0 n0 U sz st) (hok : ∀ c, c ∈ cs → c.ok m fuel U sz) :
+    ∃ st', runGB fuel st cs = some st' ∧ GInv o0 n0 U sz st' ∧
+      (∀ b, HeapSafe.Owned st'.2 b → (NTT_dtor st'.1 st'.2).ext b = 0) ∧
+      (∀ b, ¬ HeapSafe.Owned st'.2 b → (NTT_dtor st'.1 st'.2).block b = st'.1.block b) ∧
+      (∀ b, U b → (NTT_dtor st'.1 st'.2).block b = st'.1.block b ∧ ((NTT_dtor st'.1 st'.2).block b).size = sz b) :=
+  runGB_then_dtor m e o0 hobj he fuel hf n0 U sz cs st hinv hok
+
+/-- **constructor → any history → destructor** on any heap: everything returns (`HeapSafe.life` is the composition of the
+    allocation-balance theorem `C18_generated_alloc_balance`); every block that existed before the constructor keeps, through the
+    destructor, the content the history gave it; afterwards EVERY extent is what it was before the constructor ran: the object's
+    blocks (all with numbers ≥ the original heap size) are released, nothing else is -/
+theorem C19_generated_life_then_dtor (fuel : Nat) (hf : 64 ≤ fuel) (hp : Heap) (hpos : 0 < hp.size) (m : BitVec 64) (thr : BitVec 32)
+    (e : Nat) (he : e ≤ 1) (hm0 : m ≠ 0#64) (o0 : Obj) (hobj : mkObj m.toNat e = some o0) (cs : List GCallB)
+    (hok : ∀ c, c ∈ cs → c.ok m.toNat fuel (fun b => 0 < b ∧ b < hp.size) (fun b => (hp.block b).size)) :
+    ∃ st0 st, NTT_ctor fuel hp NTT_Goldilocks.init m thr (e : Int) = some st0 ∧ runGB fuel st0 cs = some st ∧
+      HeapSafe.life fuel hp m thr (e : Int) (cs.map GCallB.toRaw) = some (NTT_dtor st.1 st.2) ∧
+      GInv o0 hp.size (fun b => 0 < b ∧ b < hp.size) (fun b => (hp.block b).size) st ∧
+      (∀ b, b < hp.size → (NTT_dtor st.1 st.2).block b = st.1.block b) ∧
+      (∀ b, (NTT_dtor st.1 st.2).ext b = hp.ext b) ∧
+      (∀ b, hp.size ≤ b → (NTT_dtor st.1 st.2).ext b = 0) :=
+  life_then_dtor fuel hf hp hpos m thr e he hm0 o0 hobj cs hok
+
+/-- non-vacuity: a concrete history with documented arguments on a heap with three caller blocks (8, 16, 16 words), an object for 8
+    points: `extendPol` 4 → 8 with the third block as scratch, two column blocks; an in-place (`dst == NULL`) `NTT` of size 4 with the
+    scratch block; an `INTT` into another block without buffer; a size-1 in-place `NTT` of 8 columns with the scratch block; an
+    in-place `extendPol` without buffer.  The whole life returns and gives back every block -/
+example : ∃ st0 st,
+    NTT_ctor 64 ⟨#[#[], Array.replicate 8 5#64, Array.replicate 16 0#64, Array.replicate 16 9#64]⟩ NTT_Goldilocks.init 8#64 1#32
+      ((1 : Nat) : Int) = some st0 ∧
+    runGB 64 st0 [GCallB.extendPol 2 1 3 2 2 (some 3) 3#64 2#64, GCallB.ntt none 1 2 2 (some 3) 3#64 1#64,
+      GCallB.intt (some 2) 1 2 2 none 0#64 5#64, GCallB.ntt none 1 0 8 (some 3) 3#64 1#64,
+      GCallB.extendPol 2 2 3 2 2 none 3#64 1#64] = some st ∧
+    ∀ b, (NTT_dtor st.1 st.2).ext b =
+      Heap.ext ⟨#[#[], Array.replicate 8 5#64, Array.replicate 16 0#64, Array.replicate 16 9#64]⟩ b := by
+  obtain ⟨o0, ho0⟩ := mkObj_some (8#64 : BitVec 64).toNat 1 (by decide)
+  obtain ⟨st0, st, h1, h2, _, _, _, h3, _⟩ := C19_generated_life_then_dtor 64 (by omega)
+    ⟨#[#[], Array.replicate 8 5#64, Array.replicate 16 0#64, Array.replicate 16 9#64]⟩ (by decide) 8#64 1#32 1 (by omega) (by decide)
+    o0 ho0 [GCallB.extendPol 2 1 3 2 2 (some 3) 3#64 2#64, GCallB.ntt none 1 2 2 (some 3) 3#64 1#64,
+      GCallB.intt (some 2) 1 2 2 none 0#64 5#64, GCallB.ntt none 1 0 8 (some 3) 3#64 1#64,
+      GCallB.extendPol 2 2 3 2 2 none 3#64 1#64] (by
+    intro c hc
+    simp only [List.mem_cons, List.not_mem_nil, or_false] at hc
+    rcases hc with rfl | rfl | rfl | rfl | rfl
+    · exact ⟨by decide, by decide, by decide, by decide, by decide, by decide, by decide, by decide, by decide,
+        fun B hB => by cases hB; decide⟩
+    · exact ⟨by decide, by decide, by decide, by decide, by decide, by decide, by decide, by decide,
+        fun B hB => by cases hB; decide⟩
+    · exact ⟨by decide, by decide, by decide, by decide, by decide, by decide, by decide, by decide, fun B hB => by cases hB⟩
+    · exact ⟨by decide, by decide, by decide, by decide, by decide, by decide, by decide, by decide,
+        fun B hB => by cases hB; decide⟩
+    · exact ⟨by decide, by decide, by decide, by decide, by decide, by decide, by decide, by decide, by decide,
+        fun B hB => by cases hB⟩)
+  exact ⟨st0, st, h1, h2, h3⟩
+
+end generated_history_buffers
 
 end GoldilocksVerif.C19
